@@ -549,7 +549,8 @@ class Executor:
         if isinstance(base.ty, SeqT) and idx.ty is INT:
             n = seq_len(base.term)
             # a concrete negative index counts from the end; a symbolic index must be proved non-negative (stricter than Python)
-            i = (n + idx.term) if (z3.is_int_value(idx.term) and idx.term.as_long() < 0) else idx.term
+            it_ = z3.simplify(idx.term)             # `-1` is a unary minus applied to a literal
+            i = (n + it_) if (z3.is_int_value(it_) and it_.as_long() < 0) else idx.term
             self.safety("index in range", st, z3.And(0 <= i, i < n), node, "IndexError")
             return V(seq_at(base.term, i, base.ty.elem), base.ty.elem)
         if isinstance(base.ty, MapT):
